@@ -395,7 +395,7 @@ func runMain(propID, tier string) int {
 		fmt.Printf("VIOLATION property=%s replay=%s\n", propID, path)
 		fmt.Printf("  oracle=%s key=%s\n  %s\n", wv.V.Oracle, wv.V.Key, strings.ReplaceAll(wv.V.Detail, "\n", "\n  "))
 		exit = 1
-		if nviol >= 12 {
+		if nviol >= 8 {
 			break
 		}
 	}
@@ -474,7 +474,7 @@ func hasViolation(res *Result, id string) *Violation {
 func reportViolation(p *PropDef, seed uint64, tier string, wv WorkerViol) string {
 	dir := filepath.Join(verifDir(), "replays")
 	os.MkdirAll(dir, 0o755)
-	path := filepath.Join(dir, fmt.Sprintf("%s-%d-%d-%s.json", p.ID, seed, wv.Index, sanitize(wv.V.Oracle)))
+	path := filepath.Join(dir, fmt.Sprintf("%s-%d-%d-%s-%04x.json", p.ID, seed, wv.Index, sanitize(wv.V.Oracle), fnvStr(0, wv.V.id())&0xffff))
 	rf := &ReplayFile{Property: p.ID, Seed: seed, Tier: tier, Index: wv.Index, Oracle: wv.V.Oracle, Key: wv.V.Key, Detail: wv.V.Detail}
 	if wv.V.Oracle == "hang" || wv.V.Oracle == "fatal" {
 		rf.Scenario = genScenario(p, seed, wv.Index, tier)
@@ -531,7 +531,7 @@ func writeJSON(path string, v any) {
 // shrink: replace sweeps by the explicit failing step, ddmin over steps, then
 // per-step simplification; a candidate is accepted iff the same oracle id fires.
 func shrink(sc *Scenario, id string) *Scenario {
-	deadline := time.Now().Add(60 * time.Second)
+	deadline := time.Now().Add(30 * time.Second)
 	budget := 3000
 	fails := func(c *Scenario) bool {
 		if budget <= 0 || time.Now().After(deadline) {
